@@ -73,6 +73,17 @@ pub trait Family: 'static + Sized {
     fn on_spawn(_objs: &Self::Objs, _child: usize, _thread: &shuttle::thread::Thread) {}
     /// Called by every thread when it starts running (inside the Shuttle task).
     fn on_start(_objs: &Self::Objs, _t: usize) {}
+    /// Async family: every program thread is a task (`future::spawn`), main runs under `block_on`.
+    const ASYNC: bool = false;
+    /// Async execution of an operation (default: the synchronous `exec`).
+    fn exec_async<'a>(
+        objs: &'a Self::Objs,
+        l: &'a mut Self::Locals,
+        t: usize,
+        op: &'a Self::Op,
+    ) -> std::pin::Pin<Box<dyn std::future::Future<Output = Self::Res> + 'a>> {
+        Box::pin(async move { Self::exec(objs, l, t, op) })
+    }
     /// Name to give thread `t` through `thread::Builder` (None = plain `thread::spawn`).
     fn thread_name(_cfg: &Self::Cfg, _t: usize) -> Option<String> {
         None
@@ -96,6 +107,12 @@ pub trait Family: 'static + Sized {
     fn weakening(_cfg: &Self::Cfg) -> Option<&'static str> {
         None
     }
+    /// Can a task be cancelled (by abort) while it is in this operation?  False for operations that
+    /// block synchronously inside the task's poll (nested block_on): they never return Pending to
+    /// the executor, so an abort cannot take effect before they complete.
+    fn m_abortable(_op: &Self::Op) -> bool {
+        true
+    }
     /// Called on the model state when thread `t` finishes.
     fn m_on_finish(_m: &mut Self::M, _t: usize) {}
     /// Weakened model only: thread `t` is held blocked by the modelled defect.
@@ -115,6 +132,10 @@ pub enum GOp<O> {
     ScopeBegin(Vec<usize>),
     /// end of the scope body: returns once every scoped thread has finished
     ScopeEnd,
+    /// async families: JoinHandle::abort / drop of the JoinHandle / JoinHandle::is_finished
+    Abort(usize),
+    Detach(usize),
+    IsFinished(usize),
     Op(O),
 }
 
@@ -123,7 +144,9 @@ pub enum GRes<R> {
     Unit,
     /// child's task id is logged but not part of the compared value
     Spawned,
+    /// thread join: closure value as expected; async join: true = output, false = Cancelled
     Joined(bool),
+    Bool(bool),
     R(R),
 }
 
@@ -221,6 +244,7 @@ struct Ctx<F: Family> {
     prog: Arc<SS<Program<F>>>,
     objs: F::Objs,
     handles: RefCell<Vec<Option<shuttle::thread::JoinHandle<u32>>>>,
+    ahandles: RefCell<Vec<Option<shuttle::future::JoinHandle<u32>>>>,
     /// one Vec per execution; the current execution's is the last
     log: Logs<F::Res>,
 }
@@ -250,6 +274,107 @@ fn run_thread<F: Family>(ctx: Arc<SS<Ctx<F>>>, t: usize) -> u32 {
     let mut locals = F::new_locals(&c.prog.0.cfg, t);
     let ops = &c.prog.0.threads[t];
     run_ops::<F>(&ctx, t, &mut locals, 0, ops.len(), &push);
+    push(ops.len(), EKind::End);
+    F::end_thread(&c.objs, locals, t);
+    thread_ret(t)
+}
+
+/// A future asserted Send (everything runs on the one OS thread of the Shuttle execution).
+pub struct SendFut<Fu>(pub Fu);
+unsafe impl<Fu> Send for SendFut<Fu> {}
+impl<Fu: std::future::Future> std::future::Future for SendFut<Fu> {
+    type Output = Fu::Output;
+    fn poll(self: std::pin::Pin<&mut Self>, cx: &mut std::task::Context<'_>) -> std::task::Poll<Fu::Output> {
+        // Safety: structural pinning of the only field
+        unsafe { self.map_unchecked_mut(|s| &mut s.0) }.poll(cx)
+    }
+}
+
+/// Logs an auxiliary event when the task's future is dropped (completion, cancellation, cut-off).
+struct FutureDropLog(usize);
+impl Drop for FutureDropLog {
+    fn drop(&mut self) {
+        log_aux(format!("future-dropped t{}", self.0));
+    }
+}
+
+/// A future paired with a drop logger created at *spawn* time (a task aborted before its first
+/// poll never runs the body of its async fn).
+pub struct Logged<Fu> {
+    fut: Fu,
+    _g: FutureDropLog,
+}
+impl<Fu: std::future::Future> std::future::Future for Logged<Fu> {
+    type Output = Fu::Output;
+    fn poll(self: std::pin::Pin<&mut Self>, cx: &mut std::task::Context<'_>) -> std::task::Poll<Fu::Output> {
+        unsafe { self.map_unchecked_mut(|s| &mut s.fut) }.poll(cx)
+    }
+}
+
+/// The async interpreter: program thread `t` as a task.
+async fn run_task<F: Family>(ctx: Arc<SS<Ctx<F>>>, t: usize) -> u32 {
+    let c = &ctx.0;
+    let me: usize = shuttle::current::me().into();
+    let push = |op: usize, kind: EKind<F::Res>| {
+        let mut l = c.log.borrow_mut();
+        let cur = l.last_mut().expect("log of current execution");
+        cur.push(Entry {
+            stamp: crate::explore::decision_stamp(),
+            thread: t,
+            task: me,
+            op,
+            kind,
+        });
+        MAIN_LOG_LEN.with(|n| n.set(cur.len()));
+    };
+    push(0, EKind::Start);
+    F::on_start(&c.objs, t);
+    let mut locals = F::new_locals(&c.prog.0.cfg, t);
+    let ops = &c.prog.0.threads[t];
+    for (i, op) in ops.iter().enumerate() {
+        push(i, EKind::Call);
+        let r = match op {
+            GOp::Spawn(ch) => {
+                let ctx2 = ctx.clone();
+                let ch = *ch;
+                let h = shuttle::future::spawn(SendFut(Logged {
+                    fut: run_task::<F>(ctx2, ch),
+                    _g: FutureDropLog(ch),
+                }));
+                c.ahandles.borrow_mut()[ch] = Some(h);
+                GRes::Spawned
+            }
+            GOp::Join(ch) => {
+                let h = c.ahandles.borrow_mut()[*ch].take().expect("await without handle");
+                match h.await {
+                    Ok(v) => {
+                        assert_eq!(v, thread_ret(*ch), "joined value");
+                        GRes::Joined(true)
+                    }
+                    Err(_) => GRes::Joined(false),
+                }
+            }
+            GOp::Abort(ch) => {
+                // take the handle out while aborting (abort has a scheduling point)
+                let h = c.ahandles.borrow_mut()[*ch].take().expect("abort without handle");
+                h.abort();
+                c.ahandles.borrow_mut()[*ch] = Some(h);
+                GRes::Unit
+            }
+            GOp::Detach(ch) => {
+                let h = c.ahandles.borrow_mut()[*ch].take().expect("detach without handle");
+                drop(h);
+                GRes::Unit
+            }
+            GOp::IsFinished(ch) => {
+                let b = c.ahandles.borrow()[*ch].as_ref().expect("is_finished without handle").is_finished();
+                GRes::Bool(b)
+            }
+            GOp::Op(o) => GRes::R(F::exec_async(&c.objs, &mut locals, t, o).await),
+            GOp::ScopeBegin(_) | GOp::ScopeEnd => unreachable!("scope in an async program"),
+        };
+        push(i, EKind::Ret(r));
+    }
     push(ops.len(), EKind::End);
     F::end_thread(&c.objs, locals, t);
     thread_ret(t)
@@ -339,6 +464,7 @@ fn run_ops<F: Family>(
                 i = end + 1;
             }
             GOp::ScopeEnd => unreachable!("ScopeEnd is consumed by its ScopeBegin"),
+            GOp::Abort(_) | GOp::Detach(_) | GOp::IsFinished(_) => unreachable!("async-only operation in a thread program"),
         }
     }
 }
@@ -420,9 +546,14 @@ fn make_body<F: Family>(prog: &Arc<SS<Program<F>>>, logs: &Logs<F::Res>, auxs: &
             prog: prog.clone(),
             objs: F::make_objs(&prog.get().cfg, n),
             handles: RefCell::new((0..n).map(|_| None).collect()),
+            ahandles: RefCell::new((0..n).map(|_| None).collect()),
             log: logs.get().clone(),
         }));
-        run_thread::<F>(ctx, 0);
+        if F::ASYNC {
+            shuttle::future::block_on(run_task::<F>(ctx, 0));
+        } else {
+            run_thread::<F>(ctx, 0);
+        }
     }
 }
 
@@ -560,6 +691,21 @@ pub struct Th {
     pub pc: u16,
     pub phase: u8,
     pub st: St,
+    /// DETACHED | ABORTED | CANCELLED
+    pub flags: u8,
+}
+
+pub const DETACHED: u8 = 1;
+pub const ABORTED: u8 = 2;
+pub const CANCELLED: u8 = 4;
+/// async families: the task has been polled at least once
+pub const STARTED: u8 = 8;
+
+/// The execution is over once no attached task is unfinished (detached ones are cut off).
+pub fn execution_over<F: Family>(s: &GState<F>) -> bool {
+    let any_active = s.th.iter().any(|t| t.st == St::Active);
+    let attached_active = s.th.iter().any(|t| t.st == St::Active && t.flags & DETACHED == 0);
+    any_active && !attached_active
 }
 
 pub struct GState<F: Family> {
@@ -602,6 +748,8 @@ impl<F: Family> Debug for GState<F> {
 #[derive(Clone, Debug, PartialEq, Eq)]
 pub enum Label<R> {
     Eps,
+    /// first poll of an async task
+    Start,
     Finish,
     Ret(usize, GRes<R>),
     Panic(String),
@@ -614,6 +762,7 @@ pub fn g_init<F: Family>(p: &Program<F>) -> GState<F> {
             pc: 0,
             phase: 0,
             st: St::NotStarted,
+            flags: 0,
         })
         .collect();
     th[0].st = St::Active;
@@ -646,6 +795,29 @@ fn g_steps_raw<F: Family>(p: &Program<F>, s: &GState<F>, t: usize, strict: bool)
     if s.panic.is_some() || s.th[t].st != St::Active {
         return out;
     }
+    if execution_over(s) {
+        return out;
+    }
+    let in_unabortable_op = {
+        let pc = s.th[t].pc as usize;
+        (!F::ASYNC || s.th[t].flags & STARTED != 0) && pc < p.threads[t].len() && matches!(&p.threads[t][pc], GOp::Op(o) if !F::m_abortable(o))
+    };
+    if s.th[t].flags & ABORTED != 0 && !in_unabortable_op {
+        // an aborted task may be cancelled whenever it is polled next: its future is dropped and it
+        // performs no further step (loose: the poll boundary is not modelled)
+        let mut n = s.clone();
+        n.th[t].st = St::Finished;
+        n.th[t].flags |= CANCELLED;
+        F::m_on_finish(&mut n.m, t);
+        out.push((false, Label::Finish, n));
+    }
+    if F::ASYNC && s.th[t].flags & STARTED == 0 {
+        // first poll of the task (a task aborted before it can only be cancelled)
+        let mut n = s.clone();
+        n.th[t].flags |= STARTED;
+        out.push((false, Label::Start, n));
+        return out;
+    }
     if weak() && F::m_forced_blocked(&s.m, t) && (s.th[t].pc as usize) < p.threads[t].len() {
         // held blocked by the modelled defect (takes effect at the thread's next scheduling point,
         // i.e. before its next operation; a thread with nothing left to do still finishes)
@@ -675,8 +847,25 @@ fn g_steps_raw<F: Family>(p: &Program<F>, s: &GState<F>, t: usize, strict: bool)
         }
         GOp::Join(c) => {
             if s.th[*c].st == St::Finished {
-                out.push((false, Label::Ret(pc, GRes::Joined(true)), done(s, GRes::Joined(true))));
+                let ok = s.th[*c].flags & CANCELLED == 0;
+                out.push((false, Label::Ret(pc, GRes::Joined(ok)), done(s, GRes::Joined(ok))));
             }
+        }
+        GOp::Abort(c) => {
+            let mut n = done(s, GRes::Unit);
+            if n.th[*c].st != St::Finished {
+                n.th[*c].flags |= ABORTED;
+            }
+            out.push((false, Label::Ret(pc, GRes::Unit), n));
+        }
+        GOp::Detach(c) => {
+            let mut n = done(s, GRes::Unit);
+            n.th[*c].flags |= DETACHED;
+            out.push((false, Label::Ret(pc, GRes::Unit), n));
+        }
+        GOp::IsFinished(c) => {
+            let f = s.th[*c].st == St::Finished;
+            out.push((false, Label::Ret(pc, GRes::Bool(f)), done(s, GRes::Bool(f))));
         }
         GOp::ScopeBegin(children) => {
             // scoped spawns happen one by one (each is a scheduling point), then the body starts
@@ -797,7 +986,8 @@ pub fn model_outcomes<F: Family>(p: &Program<F>, strict: bool, max_states: usize
                 Ending::Panic(c.clone())
             } else {
                 let unfinished: Vec<usize> = (0..s.th.len()).filter(|&t| s.th[t].st == St::Active).collect();
-                if unfinished.is_empty() {
+                let attached_unfinished = (0..s.th.len()).any(|t| s.th[t].st == St::Active && s.th[t].flags & DETACHED == 0);
+                if !attached_unfinished {
                     Ending::Ok
                 } else {
                     Ending::Deadlock(unfinished)
@@ -852,7 +1042,7 @@ pub struct Tr<R> {
 
 #[derive(Clone, PartialEq, Eq, Hash)]
 enum Ev<R> {
-    Closure(u8, bool),
+    Closure(u8, bool, bool),
     Ret(u8, u16, GRes<R>),
     /// keep states in which every thread that is able to run (and whose gate is open) is offered
     Filter(u64, u64),
@@ -954,8 +1144,8 @@ impl<F: Family> MCache<F> {
         (0..p.threads.len()).any(|u| u != t && self.enabled(p, s, u))
     }
 
-    fn closure(&mut self, p: &Program<F>, set: u32, t: usize, open: bool) -> u32 {
-        let key = (set, Ev::Closure(t as u8, open));
+    fn closure(&mut self, p: &Program<F>, set: u32, t: usize, open: bool, started: bool) -> u32 {
+        let key = (set, Ev::Closure(t as u8, open, started));
         if let Some(r) = self.memo.get(&key) {
             return *r;
         }
@@ -966,11 +1156,18 @@ impl<F: Family> MCache<F> {
                 let st = &self.states[s as usize];
                 (st.th[t].st == St::Active, st.th[t].pc as usize == p.threads[t].len())
             };
-            if !active || (!at_end && !open) {
+            if !active {
                 continue;
             }
+            let may_eps = at_end || open;
             for tr in self.raw(p, s, t).iter() {
-                if matches!(tr.label, Label::Eps | Label::Finish) && all.insert(tr.next) {
+                let ok = match tr.label {
+                    Label::Finish => true, // normal finish (at_end) or cancellation of an aborted task
+                    Label::Eps => may_eps,
+                    Label::Start => started,
+                    _ => false,
+                };
+                if ok && all.insert(tr.next) {
                     work.push(tr.next);
                 }
             }
@@ -1063,6 +1260,8 @@ pub fn cosim<F: Family>(p: &Program<F>, mc: &mut MCache<F>, rec: &ExecRecord<F::
     let mut called = vec![0usize; n];
     let mut pcs = vec![0usize; n]; // ops returned so far per thread (uniform over candidates)
     let mut started = vec![false; n];
+    let mut inferred = vec![false; n]; // task id inferred from spawn order (async spawns carry no id)
+    let mut next_task_id = 1usize;
     let mut cands: u32 = mc.init_set;
     let mut fail: Option<CosimFail> = None;
     let mut li = 0usize;
@@ -1081,7 +1280,7 @@ pub fn cosim<F: Family>(p: &Program<F>, mc: &mut MCache<F>, rec: &ExecRecord<F::
         if stamp >= 1 && fail.is_none() {
             if let Some(t) = running {
                 let open = pcs[t] < p.threads[t].len() && called[t] > pcs[t];
-                cands = mc.closure(p, cands, t, open);
+                cands = mc.closure(p, cands, t, open, started[t]);
             }
         }
         while li < log.len() && log[li].stamp == stamp {
@@ -1118,6 +1317,13 @@ pub fn cosim<F: Family>(p: &Program<F>, mc: &mut MCache<F>, rec: &ExecRecord<F::
                 }
                 EKind::Start => {
                     started[e.thread] = true;
+                    if inferred[e.thread] && task_of[e.thread] != Some(e.task) {
+                        // the inference was wrong: trust what the task itself reports
+                        if let Some(prev) = task_of[e.thread] {
+                            thread_of.remove(&prev);
+                        }
+                        task_of[e.thread] = None;
+                    }
                     if let Some(prev) = task_of[e.thread] {
                         if prev != e.task {
                             fail = Some(CosimFail {
@@ -1130,20 +1336,23 @@ pub fn cosim<F: Family>(p: &Program<F>, mc: &mut MCache<F>, rec: &ExecRecord<F::
                     }
                     task_of[e.thread] = Some(e.task);
                     thread_of.insert(e.task, e.thread);
+                    cands = mc.closure(p, cands, e.thread, false, true);
                 }
                 EKind::Call => {
                     called[e.thread] = e.op + 1;
-                    cands = mc.closure(p, cands, e.thread, true);
+                    cands = mc.closure(p, cands, e.thread, true, true);
                 }
                 EKind::ChildTask(tid) => {
                     if let GOp::Spawn(c) = &p.threads[e.thread][e.op] {
                         task_of[*c] = Some(*tid);
                         thread_of.insert(*tid, *c);
+                        next_task_id = next_task_id.max(*tid + 1);
                     }
                 }
                 EKind::ChildTask2(c, tid) => {
                     task_of[*c] = Some(*tid);
                     thread_of.insert(*tid, *c);
+                    next_task_id = next_task_id.max(*tid + 1);
                 }
                 EKind::Ret(_) if e.op != pcs[e.thread] => {
                     fail = Some(CosimFail {
@@ -1154,6 +1363,15 @@ pub fn cosim<F: Family>(p: &Program<F>, mc: &mut MCache<F>, rec: &ExecRecord<F::
                     });
                 }
                 EKind::Ret(r) => {
+                    if let GOp::Spawn(c) = &p.threads[e.thread][e.op] {
+                        if task_of[*c].is_none() {
+                            // async spawn: task ids are handed out sequentially
+                            task_of[*c] = Some(next_task_id);
+                            thread_of.insert(next_task_id, *c);
+                            inferred[*c] = true;
+                            next_task_id += 1;
+                        }
+                    }
                     res[e.thread].push(r.clone());
                     let next = mc.ret(p, cands, e.thread, e.op, r);
                     if mc.set(next).is_empty() {
@@ -1176,11 +1394,11 @@ pub fn cosim<F: Family>(p: &Program<F>, mc: &mut MCache<F>, rec: &ExecRecord<F::
                         cands = next;
                         pcs[e.thread] = e.op + 1;
                         let open = pcs[e.thread] < p.threads[e.thread].len() && called[e.thread] > pcs[e.thread];
-                        cands = mc.closure(p, cands, e.thread, open);
+                        cands = mc.closure(p, cands, e.thread, open, true);
                     }
                 }
                 EKind::End => {
-                    cands = mc.closure(p, cands, e.thread, false);
+                    cands = mc.closure(p, cands, e.thread, false, true);
                 }
             }
         }
@@ -1262,16 +1480,20 @@ pub fn cosim<F: Family>(p: &Program<F>, mc: &mut MCache<F>, rec: &ExecRecord<F::
             Ending::Stopped => true,
             Ending::Ok => set.iter().any(|s| {
                 let st = &mc.states[*s as usize];
-                st.panic.is_none() && (0..n).all(|t| st.th[t].st != St::Active)
+                st.panic.is_none() && (0..n).all(|t| st.th[t].st != St::Active || st.th[t].flags & DETACHED != 0)
             }),
             Ending::Deadlock(dset) => {
                 let mut found = false;
                 for s in set.iter() {
-                    let (nopanic, active): (bool, Vec<usize>) = {
+                    let (nopanic, active, attached): (bool, Vec<usize>, bool) = {
                         let st = &mc.states[*s as usize];
-                        (st.panic.is_none(), (0..n).filter(|&t| st.th[t].st == St::Active).collect())
+                        (
+                            st.panic.is_none(),
+                            (0..n).filter(|&t| st.th[t].st == St::Active).collect(),
+                            (0..n).any(|t| st.th[t].st == St::Active && st.th[t].flags & DETACHED == 0),
+                        )
                     };
-                    if nopanic && active == *dset && (0..n).all(|t| !mc.enabled(p, *s, t)) {
+                    if nopanic && attached && active == *dset && (0..n).all(|t| !mc.enabled(p, *s, t)) {
                         found = true;
                         break;
                     }
@@ -1350,6 +1572,9 @@ impl<O: Debug> Debug for OpDbg<'_, O> {
             GOp::Join(_) => write!(f, "Join"),
             GOp::ScopeBegin(_) => write!(f, "ScopeBegin"),
             GOp::ScopeEnd => write!(f, "ScopeEnd"),
+            GOp::Abort(_) => write!(f, "Abort"),
+            GOp::Detach(_) => write!(f, "Detach"),
+            GOp::IsFinished(_) => write!(f, "IsFinished"),
         }
     }
 }
